@@ -1,0 +1,47 @@
+//go:build verif
+
+package exif2
+
+import (
+	"sync"
+	"time"
+)
+
+// Hooks for the runtime-monitoring harness in /verif. Compiled only with -tags verif.
+// They must be called at quiescent points only (no decode in flight).
+
+// VerifResetState replaces the pooled tag/scratch buffers by a fresh pool and empties the
+// time-zone cache, i.e. restores the state of a process that has decoded nothing yet.
+func VerifResetState() {
+	bufferPool = sync.Pool{New: func() interface{} { return new(buffer) }}
+	mutexTimeZones.Lock()
+	cacheTimeZone = map[int32]*time.Location{}
+	mutexTimeZones.Unlock()
+}
+
+// VerifPoisonBuffers replaces the buffer pool by one whose buffers come pre-filled the way an
+// earlier decode could have left them: scratch bytes repeat pattern, tag[i] = tags[i%len(tags)].
+// len and pos are not touched (clear() resets them on acquisition).
+func VerifPoisonBuffers(pattern []byte, tags []Tag) {
+	bufferPool = sync.Pool{New: func() interface{} {
+		b := new(buffer)
+		if len(pattern) > 0 {
+			for i := range b.buf {
+				b.buf[i] = pattern[i%len(pattern)]
+			}
+		}
+		if len(tags) > 0 {
+			for i := range b.tag {
+				b.tag[i] = tags[i%len(tags)]
+			}
+		}
+		return b
+	}}
+}
+
+// VerifZoneCacheLen reports the number of cached time zones.
+func VerifZoneCacheLen() int {
+	mutexTimeZones.RLock()
+	defer mutexTimeZones.RUnlock()
+	return len(cacheTimeZone)
+}
